@@ -1099,7 +1099,7 @@ func (c *Conn) readHandshake(transcript transcriptHash) (any, error) {
 	// hasVers indicates we're past the first message, forcing someone trying to
 	// make us just allocate a large buffer to at least do the initial part of
 	// the handshake first.
-	if c.haveVers && data[0] == typeCertificate {
+	if c.haveVers && (data[0] == typeCertificate || (c.isClient && data[0] == utlsTypeCompressedCertificate)) { // [uTLS] a compressed certificate (RFC 8879) is a certificate message too
 		// Since certificate messages are likely to be the only messages that
 		// can be larger than maxHandshake, we use a special limit for just
 		// those messages.
